@@ -196,6 +196,10 @@ def relock():
 
 def build_driver():
     """Extract the models (ExtrOcamlBasic only) and build the OCaml driver. Cached on input hashes."""
+    # the .vo files of every module named in Extract.v must be current (a regenerated Gen/*.v makes dependants stale)
+    ex = open(os.path.join(COQ, "Extract.v")).read()
+    mods = re.search(r"From SFV Require Import (.*?)\.\n", ex, re.S).group(1).split()
+    coq_build(["theories/" + m.replace(".", "/") + ".vo" for m in mods])
     with Lock("ocaml"):
         d = os.path.join(CACHE, "ocaml")
         os.makedirs(d, exist_ok=True)
